@@ -361,6 +361,8 @@ class Pkg:
         return ""
 
     def tail(self):
+        if self.dirarg == "abs":
+            return ["@ROOT/" + self.name]      # the ABSOLUTE package directory: @ROOT is replaced by the module root of the copy
         return ["./" + self.name] if self.dirarg else []
 
     def extra(self):
